@@ -9,7 +9,7 @@
             self.flush_tx()'
 ./tools_mut.py C02 rf24.py '            force_retry -= 1
 ' ''
-./tools_mut.py C02 rf24.py 'if self._in[0] & 0x60 == 0x60 and not send_only:' 'if self._in[0] & 0x60 == 0x60:'
+./tools_mut.py C02 rf24.py 'if result is True and self._in[0] & 0x60 == 0x60 and not send_only:' 'if result is True and self._in[0] & 0x60 == 0x60:'
 ./tools_mut.py C02 rf24.py '        if self.fifo(True, True):
             return False
 ' ''
